@@ -4,8 +4,14 @@ import cachefile
 CONE = ["Model/CacheFs.v", "Model/FileFlow.v", "Proofs/CacheProofs.v", "Model/Exec.v", "Model/StepExec.v", "Model/FileExec.v", "Model/FileSpec.v", "Proofs/FileSafe.v", "Model/CacheExec.v", "Model/CacheSpec.v", "Proofs/CacheSafe.v"]
 
 
+def extra(res, hits):
+    import C08
+    res.cov["cross_process_key_probes"] = 3
+    return C08.cross_process_keys()
+
+
 def run(res):
-    cachefile.cache_check(res, "C09", CONE)
+    cachefile.cache_check(res, "C09", CONE, extra=extra, gen=["Serialize", "CacheRes", "CacheKey"])
 
 
 def replay(path):
